@@ -337,6 +337,7 @@ type AttemptPlan struct {
 	CancelAtPkt  int    // cancel when packet index i has been sent; -1
 	HandlerBlock int    // tx index whose handler blocks until released by the stop cause; -1
 	HandlerBlockMs int  // if > 0 the blocked handler resumes by itself after this many milliseconds
+	ReleaseDelayMs int  // the blocked handler keeps running this long AFTER the stop cause (cancel) before it returns
 	Scribble     bool   // handler overwrites every delivered byte slice after snapshotting
 	Dead         bool   // connect to a dead address (no listener)
 	CancelAfterReturn bool // the caller cancels its context after Stream returned, before calling Error()
@@ -353,7 +354,7 @@ func defaultAttempt() AttemptPlan {
 func (a AttemptPlan) J() M {
 	m := M{"pacing": a.Pacing, "end": a.End, "connfault": orNone(a.ConnFault), "handlerErrAt": a.HandlerErrAt,
 		"mapperFault": orNone(a.MapperFault), "handlerErrKind": orNone(a.HandlerErrKind), "cancelAtTx": a.CancelAtTx, "cancelAtPkt": a.CancelAtPkt,
-		"handlerBlock": a.HandlerBlock, "scribble": a.Scribble, "dead": a.Dead, "cancelAfterReturn": a.CancelAfterReturn,
+		"handlerBlock": a.HandlerBlock, "releaseDelayMs": a.ReleaseDelayMs, "scribble": a.Scribble, "dead": a.Dead, "cancelAfterReturn": a.CancelAfterReturn,
 		"logDelayMs": a.LogDelayMs, "skipError": a.SkipError, "hookTrace": a.HookTrace, "hookFuzz": a.HookFuzz != 0}
 	if a.Fault != nil {
 		m["fault"] = M{"kind": a.Fault.Kind, "at": a.Fault.At, "code": int(a.Fault.Code), "msg": B(a.Fault.Msg)}
@@ -601,7 +602,11 @@ func (rs *runState) runAttempt(att int, a AttemptPlan, dsnOverride string) {
 	plan.OnSent = func(i int) {
 		if a.CancelAtPkt == i {
 			doCancel("pkt")
-			release()
+			if a.ReleaseDelayMs > 0 {
+				go func() { time.Sleep(time.Duration(a.ReleaseDelayMs) * time.Millisecond); release() }()
+			} else {
+				release()
+			}
 		}
 	}
 	if plan.Lockstep {
@@ -659,6 +664,10 @@ func (rs *runState) runAttempt(att int, a AttemptPlan, dsnOverride string) {
 		}
 		if a.CancelAtTx == k {
 			doCancel("tx")
+			if a.ReleaseDelayMs > 0 {
+				// the handler is still busy for a while after the context was cancelled
+				time.Sleep(time.Duration(a.ReleaseDelayMs) * time.Millisecond)
+			}
 		}
 		if a.HandlerBlock == k {
 			lim := waitBound
